@@ -9,8 +9,9 @@ package xsync
 //@   atomic lock : rely new == 0 || new == 1 ; guar (old == 0 && new == 1) || new == 0
 
 //@ func (*MutexWithSpinlock).Lock
-//@   props C02 C13
-//@   ensures [returns-only-after-winning-the-transition|C02] cas_ok(lock)
+//@   note the local lock of Delay, the Buffer / Sample / Window operators: mutual exclusion there is what keeps their queues and buffers whole (C04, C05, C16)
+//@   props C02 C13 C04 C05 C16
+//@   ensures [returns-only-after-winning-the-transition|C02,C13,C04,C05,C16] cas_ok(lock)
 
 //@ loop (*MutexWithSpinlock).Lock#0
 
